@@ -55,7 +55,7 @@ def regen():
     return r.stdout.strip()
 
 
-def coq_make(targets=None, clean=False):
+def coq_make(targets=None, clean=False, keep_going=False):
     """Full .vo build through coq_makefile (never -vos). Returns the build log."""
     mk = os.path.join(COQ, "Makefile")
     if clean and os.path.exists(mk):
@@ -63,7 +63,7 @@ def coq_make(targets=None, clean=False):
     proj = os.path.join(COQ, "_CoqProject")
     if not os.path.exists(mk) or os.path.getmtime(mk) < os.path.getmtime(proj):
         run(["coq_makefile", "-f", "_CoqProject", "-o", "Makefile"], cwd=COQ, check=True)
-    cmd = ["make", "-j%d" % NPROC] + (targets or [])
+    cmd = ["make", "-j%d" % NPROC] + (["-k"] if keep_going else []) + (targets or [])
     r = run(cmd, cwd=COQ, timeout=3000)
     return r.returncode, r.stdout
 
@@ -132,10 +132,8 @@ def props_check(prop_id):
     path = os.path.join(COQ, vfile)
     if not os.path.exists(path):
         raise Broken("props", "%s missing" % vfile)
-    # make sure dependencies are up to date
-    rc, out = coq_make()
-    if rc != 0:
-        return None, out
+    # dependencies are up to date: proof_side has just run the full build (and has dealt with a failure of the
+    # regenerated run-time-library theorems, which only the props files that import them depend on)
     os.makedirs(os.path.join(BUILD, "props"), exist_ok=True)
     r = run(["coqc", "-q", "-Q", "theories", "LexVerif", "-Q", "gen", "LexVerif.Gen", "-Q", "props",
              "LexVerif.Props", "-w", "-notation-overridden,-deprecated-hint-without-locality",
